@@ -69,7 +69,7 @@ func Verif_C02_Faults(withQ int) {
 	menu := []int{vActRender, vActNothing, vActError, vActDeferErr, vActBadSyntax, vActDeferOK}
 	for _, g := range []string{"ga", "gb"} {
 		vSet(g, pp, "A", vAct(menu...))
-		vSet(g, pp, "B", vAct(vActRender, vActError, vActBadSyntax))
+		vSet(g, pp, "B", vAct(vActRender, vActNothing, vActError, vActBadSyntax))
 	}
 	if withQ == 1 {
 		// q sorts after p; r sorts... use "a" to have a package processed BEFORE p
@@ -145,7 +145,19 @@ func Verif_C02_Faults(withQ int) {
 	} else {
 		// success: no fault may have been swallowed
 		for _, l := range vState.log {
-			verifsym.Assert(!vHasSub(l, ":act=2:") && !vHasSub(l, ":act=7:"), "a generator error / unparseable rendering was swallowed")
+			verifsym.Assert(!vHasSub(l, ":act=4:") && !vHasSub(l, ":act=7:"), "a generator error / unparseable rendering was swallowed")
+		}
+		// every registered deferred callback ran (a failing one cannot have been skipped silently)
+		for _, l := range vState.log {
+			if vHasSub(l, ":act=5:") || vHasSub(l, ":act=6:") {
+				ran := false
+				for _, d := range vState.log {
+					if vHasPrefix(d, l[:2]+":defer:") && vHasSub(l, d[len("ga:defer:"):]+":act=") {
+						ran = true
+					}
+				}
+				verifsym.Assert(ran, "a deferred callback (which may fail) was never run although Execute reports success")
+			}
 		}
 		if all {
 			verifsym.Assert(after[sumPath] != before[sumPath], "successful All run did not record the new sums")
